@@ -572,6 +572,7 @@ pub fn run(which: &str, tier: Tier, rep: &mut Report) -> (String, String) {
     });
     rep.merge(r);
     copy_builder(rep);
+    let zst_bounds = crate::c15z::run(tier, rep);
     rep.sample(|| "ArrayConsumer<Tracked,2>: [Next(0),Clone,NextBack(1),Drop(0),AssertEmpty(1)]".into());
     rep.sample(|| "ArrayBuilder<Tracked,2>: [Push(0),Clone,Push(1),Build(1),Build(0)] (build of the under-filled original must panic)".into());
     rep.sample(|| "array::map_!([Tracked;3], closure panicking at element 1)".into());
@@ -582,12 +583,15 @@ pub fn run(which: &str, tier: Tier, rep: &mut Report) -> (String, String) {
     rep.violations_total = rep.violations.len() as u64;
     (
         "state = an operation history executed from scratch (stateless exploration by re-execution) on ArrayConsumer<Tracked,N> (ops next, next_back, drop, assert_is_empty, clone -> second live object, start from empty()) / ArrayBuilder<Tracked,N> (push, build, drop, clone); after every step as_slice/len/is_full are compared with a deque/vec model and every live element is modified through as_mut_slice; at the end of every history the thread-local ledger must show each element handed out or dropped exactly once (at most once on panic paths), in original order with the expected payload; map_!/from_fn_! with a closure panicking at each element k; distinct_nontrivial counted conservatively as half of the complete histories".into(),
-        format!("N in 0..={maxn}, history depth min(N+{extra}, {}), at most 2 live objects; every enabled sequence", tier.pick(8, 9, 4)),
+        format!("N in 0..={maxn}, history depth min(N+{extra}, {}), at most 2 live objects; every enabled sequence; {zst_bounds}", tier.pick(8, 9, 4)),
     )
 }
 
 pub fn replay(which: &str, case: &str, rep: &mut Report) {
     // kind|N|path : re-run the whole family for that N at the recorded depth is cheap and exact: filter by replay string
+    if case.starts_with("zst") {
+        return crate::c15z::replay(case, rep);
+    }
     let p: Vec<&str> = case.split('|').collect();
     let n: usize = p[1].parse().unwrap();
     let depth = p.get(2).map_or(0, |s| s.split(',').filter(|x| !x.is_empty()).count());
